@@ -92,24 +92,12 @@ Proof.
   apply nocr_app; split; [reflexivity|apply nocr_quoteattr].
 Qed.
 
-Lemma nocr_ns_value d : forallb (ns_char_ok filtered) d = true -> nocr (sanitize filtered [] d).
-Proof.
-  intros H. rewrite sanitize_plain_pointwise. apply nocr_flat_map. intros x Hx.
-  unfold handle_unrepresentable in Hx. apply in_map_iff in Hx as [c [<- Hc]].
-  rewrite forallb_forall in H. specialize (H c Hc). unfold ns_char_ok in H.
-  repeat (apply andb_true_iff in H as [H ?]).
-  repeat match goal with H : negb _ = true |- _ => apply negb_true_iff in H end.
-  unfold filter_char. match goal with H : in_ranges filtered c = false |- _ => rewrite H end.
-  unfold esc_plain. repeat match goal with |- context [if ?b then _ else _] => destruct b; [reflexivity|] end.
-  unfold nocr. cbn. match goal with H : (c =? cCR) = false |- _ => now rewrite H end.
-Qed.
-
 Lemma nocr_ns_dump : env_ok filtered env = true -> nocr (ns_dump filtered env).
 Proof.
   unfold env_ok, ns_dump. intros H. apply nocr_flat_map. intros e He.
   rewrite forallb_forall in H. specialize (H e He). unfold ns_entry_ok in H. apply andb_true_iff in H as [H1 H2].
   apply nocr_app; split; [reflexivity|]. apply nocr_app; split; [apply nocr_name; now apply ncname_all_name|].
-  apply nocr_app; split; [reflexivity|]. apply nocr_app; split; [now apply nocr_ns_value|reflexivity].
+  apply nocr_app; split; [reflexivity|apply nocr_quoteattr].
 Qed.
 
 Lemma nocr_open_tag l0 q atts : env_ok filtered env = true -> qname_ok env q = true ->
